@@ -6,7 +6,6 @@ package decoration // import "go.pennock.tech/tabular/texttable/decoration"
 
 import (
 	"sort"
-	"sync"
 )
 
 // EmptyDecoration is a non-decoration and is returned for named lookups for an
@@ -14,8 +13,8 @@ import (
 var EmptyDecoration = Decoration{}
 
 var registry struct {
-	sync.Mutex
-	table map[string]Decoration
+	registryMutex // sync.Mutex, unless built with the "verif" tag (see simhook_*.go)
+	table         map[string]Decoration
 }
 
 // provide a couple of entries for someone to register more
@@ -30,18 +29,14 @@ func init() {
 // RegisterDecorationName declares a given name to provide a given style.
 // Existing entries may be overwritten.
 func RegisterDecorationName(name string, decor Decoration) {
-	simYield("register.lock")
 	registry.Lock()
 	registry.table[name] = decor
 	registry.Unlock()
-	simYield("register.unlock")
 }
 
 // RegisteredDecorationNames returns a sorted list of registered decoration
 // names.
 func RegisteredDecorationNames() []string {
-	simYield("names.lock")
-	defer simYield("names.unlock")
 	registry.Lock()
 	defer registry.Unlock()
 	a := make([]string, len(registry.table))
@@ -58,11 +53,9 @@ func RegisteredDecorationNames() []string {
 // The name is a simple string instead of typed, so as part of the point of this API
 // is that callers don't need to explicitly import this package.
 func Named(n string) Decoration {
-	simYield("named.lock")
 	registry.Lock()
 	d, ok := registry.table[n]
 	registry.Unlock()
-	simYield("named.unlock")
 	if ok {
 		return d
 	}
